@@ -281,3 +281,35 @@ def load_appends(h):
     r = h.call(h.getattr(m, 'load'), h.clist(vals[cut:] + [h.real('y%d' % i) for i in range(extra)]), rest)
     h.check('piecewise-load-gives-the-whole-measure', _same_measure('m', npts), m=m, w=W, x=X)
     h.check('earlier-factors-kept-and-self-returned', 'same(r, m) and same(m[0], f0)', r=r, m=m, f0=f0)
+
+
+@contract('C19/scenario.values-are-its-own', ['C19'], D + '::scenario.update', samples=60)
+def scenario_values_own(h):
+    """two scenarios built from the same product measure and the SAME list of values (or one copy-constructed from the
+    other): setting or updating the values of one changes neither the other's values nor the caller's list -- "update()
+    changes exactly the addressed weights / positions / values" """
+    npts = h.choice('npts', [(2,), (1, 2)])
+    how = h.choice('changed_through', ['update', 'values-setter', 'load'])
+    w, x = _wx(h, npts)
+    W, X = h.clist(w), h.clist(x)
+    nv = 2
+    vals = h.vec('y', nv)
+    y0 = h.snapshot(vals)
+    pm = h.call(h.get(D + '::compose'), X, W)
+    a = h.call(h.get(D + '::scenario'), pm, vals)
+    b = h.call(h.get(D + '::scenario'), pm, vals)
+    c = h.call(h.get(D + '::scenario'), a, h.getattr(a, 'values'))
+    new = h.vec('z', nv)
+    n2 = 2 * sum(npts)
+    params = h.call(h.getattr(a, 'flatten'), all=False)
+    if how == 'update':
+        h.call(h.getattr(a, 'update'), h.ev('list(p) + list(z)', p=params, z=new))
+    elif how == 'values-setter':
+        h.exec_text('a.values = z', a=a, z=new)
+    else:
+        h.call(h.getattr(a, 'load'), h.ev('list(p) + list(z)', p=params, z=new), npts)
+    env = dict(a=a, b=b, c=c, y=vals, y0=y0, z=new)
+    if how != 'load':
+        h.check('the-changed-scenario-holds-the-new-values', 'seq_eq(a.values, z)', **env)
+    h.check('the-other-scenarios-keep-their-values', 'seq_eq(b.values, y0) and seq_eq(c.values, y0)', **env)
+    h.check('the-callers-list-is-not-written-to', 'seq_eq(y, y0)', **env)
